@@ -29,6 +29,8 @@ func main() {
 		cmdSweep(os.Args[2:])
 	case "ssa":
 		cmdSSA(os.Args[2:])
+	case "loops":
+		cmdLoops(os.Args[2:])
 	case "check":
 		cmdCheck(os.Args[2:])
 	case "replay":
@@ -98,7 +100,11 @@ func printResult(res *FuncResult, verbose bool) (fails int) {
 				st = o.Result.Status
 				sv = o.Result.Solver
 			}
-			fmt.Printf("    %-8s %-10s %s  @%s:%d\n", st, sv, o.Name, shortFile(o.Pos.Filename), o.Pos.Line)
+			secs := 0.0
+			if o.Result != nil {
+				secs = o.Result.Seconds
+			}
+			fmt.Printf("    %-8s %-10s %5.1fs %s  @%s:%d\n", st, sv, secs, o.Name, shortFile(o.Pos.Filename), o.Pos.Line)
 		}
 	}
 	if verbose {
@@ -209,3 +215,30 @@ func cmdSweep(args []string) {
 }
 
 func cmdSelftest(args []string) { fmt.Println("not implemented"); os.Exit(2) }
+
+func cmdLoops(args []string) {
+	P, err := loadProgram(pkgsOfKeys(args))
+	if err != nil {
+		fmt.Fprintln(os.Stderr, err)
+		os.Exit(2)
+	}
+	C := &Contracts{Funcs: map[string]*FuncContract{}, Specs: map[string]*SpecFunc{}, GhostFields: map[string]*GhostField{}, GhostVars: map[string]*TypeExpr{}}
+	for _, k := range args {
+		fn := P.lookupFunc(k)
+		if fn == nil {
+			fmt.Fprintln(os.Stderr, "not found:", k)
+			continue
+		}
+		x := newExec(P, C, fn)
+		fr := &Frame{fn: fn}
+		x.analyzeLoops(fr)
+		var lis []*loopInfo
+		for _, li := range fr.loops {
+			lis = append(lis, li)
+		}
+		sort.Slice(lis, func(i, j int) bool { return lis[i].ordinal < lis[j].ordinal })
+		for _, li := range lis {
+			fmt.Printf("%s  #%d  %q  (line %d)\n", k, li.ordinal, li.key, P.Fset.Position(li.pos).Line)
+		}
+	}
+}
